@@ -672,8 +672,8 @@ IdPairs ==
    reversed      |-> {<<i, 100 - i>> : i \in SymbolicIds}]                                  \* every order reversed, also within a kind
 IdTokens == <<"natural", "lights_first", "interleaved", "lanelets_high", "obstacles_low", "pp_smallest", "reversed">>
 Ren(tok, i) == LET P == {p \in IdPairs[tok] : p[1] = i} IN IF P = {} THEN i ELSE (CHOOSE p \in P : TRUE)[2]
-ASSUME IdTablesInjective == \A t \in Range(IdTokens) : /\ \A i, j \in SymbolicIds : i # j => Ren(t, i) # Ren(t, j)
-                                                        /\ \A i \in SymbolicIds : Ren(t, i) \in 1..MaxId
+ASSUME IdTablesInjective ==
+  \A t \in Range(IdTokens) : (\A a, b \in SymbolicIds : a # b => Ren(t, a) # Ren(t, b)) /\ (\A a \in SymbolicIds : Ren(t, a) \in 1..MaxId)
 SortById(sq) == LET ids == SortIds({sq[i].id : i \in DOMAIN sq}) IN [k \in DOMAIN ids |-> CHOOSE x \in Range(sq) : x.id = ids[k]]
 Renumber(d, tok) ==
   LET r(i) == Ren(tok, i)
